@@ -18,6 +18,8 @@ from props import resultslib as rl
 from props import c03
 
 PID = "C05"
+# features of a call graph that make results depend on processing order through the shared store
+ORDER_FEATURES = ["compound-argument", "same-call-on-two-paths", "cycle"]
 
 
 def split_defs(src):
@@ -240,7 +242,7 @@ def run(tier, seed, build):
         if not diff:
             res.count(f"{k0}:same")
         else:
-            f = next((x for x in rl.FEATURE_PRIORITY + ["cycle"] if x in feats), "clean-fragment")
+            f = next((x for x in ORDER_FEATURES if x in feats), "clean-fragment")
             sig = f"results-depend-on-definition-order-or-unrelated-code:{f}"
             if label in not_pinned:
                 # a known finding only if the model of the pinned code predicts the same dependence
